@@ -141,10 +141,12 @@ func H_C06_Crash(v *verifrt.T) {
 		e.s.Recover()
 		v.Quiesce()
 	}
+	crashes := 1
 	if v.Param("CRASH2", 0) == 1 {
 		k2 := 1 + v.Choose("second-crash-before-fs-call", v.Param("MAXK2", 20))
 		if v.RunUntilCrash(k2, boot) {
 			v.Reach("crashed-twice")
+			crashes = 2
 			boot()
 		}
 	} else {
@@ -196,6 +198,6 @@ func H_C06_Crash(v *verifrt.T) {
 	}
 	v.Assert(e.s.GetFileStatus("a", v.Now()) == sts.ConfirmPassed, "C06 the delivered file is confirmed")
 	n := dlog.count("a", h1)
-	v.Assert(n >= 1 && n <= 2, "C06 only a crash between logging and moving may repeat the log record")
+	v.Assert(n >= 1 && n <= 1+crashes, "C06 only a crash between logging and moving may repeat the log record (once per crash)")
 }
 
